@@ -175,16 +175,208 @@ def v4_no_dropped_results(F, r):
     r.ok("validation results", f"{n} Result-producing calls in validation, none dropped")
 
 
+# ---- P1 input-derived panics (narrow) -----------------------------------------------------------
+MODEL = "vrp_pragmatic::format::problem::model::"
+READER_MODS = ("vrp_pragmatic::format::problem", "vrp_pragmatic::format::coord_index", "vrp_pragmatic::utils::approx_transportation")
+# direct panicking operations on model-derived values that were confirmed guarded by reading (function level, with the guard)
+P1_DIRECT_GUARDED = {
+    ("fleet_reader::create_approx_matrices", "expect", ("MatrixProfile.speed",)): "position() over the speed list built from the same profiles; NaN cannot come from JSON",
+    ("fleet_reader::create_approx_matrices", "index", ("MatrixProfile.speed",)): "index obtained from position() over the same list",
+    ("fleet_reader::read_fleet", "unwrap", ("ShiftEnd.location",)): "CoordIndex was built from the same problem's locations",
+    ("fleet_reader::read_fleet", "unwrap", ("ShiftStart.location", "VehicleShift.start", "VehicleType.shifts")): "CoordIndex was built from the same problem's locations",
+    ("fleet_reader::read_fleet", "unwrap", ("VehicleProfile.matrix", "VehicleType.profile")): "validation rule E1505 (profile exists)",
+    ("job_reader::read_locks", "unwrap", ("Plan.relations", "Problem.plan")): "early return when relations are absent/empty",
+    ("job_reader::read_optional_breaks", "unwrap", ("VehicleOptionalBreakTime.TimeOffset::0",)): "match arm `offsets.len() != 2` precedes it",
+    ("job_reader::read_required_jobs", "unwrap", ("Job.deliveries", "Job.pickups", "Job.replacements", "Job.services")): "validation rule E1105 (empty jobs) / local is_some checks",
+    ("relations::check_e1207_no_incomplete_relation", "unwrap", ("Job.id",)): "the frequency map is built from the same ids",
+}
+
+
+def _model_fields_backward(F, fn, op, depth=0):
+    """(ADT.field) names of pragmatic model fields in the intra-procedural backward slice of op, plus closure-parameter provenance"""
+    fields = set()
+    stack = [op]
+    seen = set()
+    params = set()
+    while stack:
+        o = stack.pop()
+        if not mir.is_place(o):
+            continue
+        for a, f in mir.proj_fields(o):
+            if a.startswith(MODEL):
+                fields.add(a.split("::")[-1] + "." + f)
+        if o["l"] in seen:
+            continue
+        seen.add(o["l"])
+        if 1 <= o["l"] <= fn["argc"] and o["l"] not in mir.defs(fn):
+            params.add(o["l"])
+        for d in mir.defs(fn).get(o["l"], []):
+            if d[0] == "s":
+                stack.extend(d[3]["r"].get("o", []))
+            else:
+                stack.extend(d[2]["args"])
+    if fn["kind"] == "Closure" and params - {1} and depth < 3:
+        fields |= _closure_param_fields(F, fn, depth)
+    return fields
+
+
+def _closure_param_fields(F, cfn, depth):
+    """model fields flowing into the parameters of a closure: taken from the other arguments of the call that consumes the closure"""
+    parent = None
+    for fid in [cfn["parent"]] + F.children.get(cfn["parent"], []):
+        pf = F.fns.get(fid)
+        if pf is None:
+            continue
+        for bi, si, s in mir.stmts(pf):
+            if s["r"]["k"] == "agg" and s["r"].get("ak") == "closure" and s["r"]["n"] == cfn["id"]:
+                parent = (pf, s["d"]["l"])
+    if parent is None:
+        return set()
+    pf, cl = parent
+    flow = mir.forward(pf, [cl])
+    out = set()
+    for bi, t in mir.calls(pf):
+        if any(mir.is_place(a) and a["l"] in flow for a in t["args"]):
+            for a in t["args"]:
+                if mir.is_place(a) and a["l"] in flow:
+                    continue
+                out |= _model_fields_backward(F, pf, a, depth + 1)
+    return out
+
+
+def _panic_summaries(F):
+    """workspace functions that panic depending on a parameter: {fn id: set(param index)} (unwrap/expect/assert on values derived from it; 2 levels)"""
+    S = {}
+    cand = [i for i, f in F.fns.items() if f["kind"] != "Closure" and "::promoted[" not in i and i.lstrip("<").startswith(("vrp_pragmatic::", "vrp_core::models::", "vrp_core::construction::features"))]
+    for rnd in range(2):
+        for fid in cand:
+            fn = F.fns[fid]
+            out = set(S.get(fid, ()))
+            for g in F.family(fid):
+                gfn = F.fns[g]
+                for bi, t in mir.calls(gfn):
+                    last = t["callee"].split("::")[-1]
+                    ops = []
+                    if last in ("unwrap", "expect") and ("Option" in t["callee"] or "Result" in t["callee"]) and t["args"]:
+                        ops = [t["args"][0]]
+                    tg = t["res"] or t["callee"]
+                    if tg in S and tg != fid:
+                        ops += [t["args"][n - 1] for n in S[tg] if n - 1 < len(t["args"])]
+                    for o in ops:
+                        leaves, _ = mir.deep_leaves(gfn, o)
+                        for k, v, p in leaves:
+                            if k == "arg" and g == fid:
+                                out.add(v)
+                            elif k == "arg" and g != fid and v != 1:
+                                # closure parameter: attribute to every parameter of the root that feeds the consuming call (approximation: all non-self params)
+                                out |= {i for i in range(1, fn["argc"] + 1)}
+                # assert!(cond) : a panic block control-dependent on a comparison of a parameter-derived value
+                if g == fid:
+                    pan = [bi for bi, t in mir.calls(gfn) if t["callee"].startswith("core::panicking::") and not t["x"] is False or t["callee"].startswith("core::panicking::assert_failed")]
+                    pan = [bi for bi, t in mir.calls(gfn) if t["callee"].startswith("core::panicking::")]
+                    if pan:
+                        for sb, bb in enumerate(gfn["bbs"]):
+                            tt = bb["t"]
+                            if tt["k"] == "switch" and mir.is_place(tt["o"]) and any(pb in mir.reach(gfn, [x for x in mir.succs(gfn)[sb]]) for pb in pan):
+                                leaves, _ = mir.deep_leaves(gfn, tt["o"])
+                                for k, v, p in leaves:
+                                    if k == "arg":
+                                        out.add(v)
+            if out:
+                S[fid] = out
+    return S
+
+
+def p1_input_panics(F, r):
+    valreads = set()
+    for fid, fn in F.fns.items():
+        root = F.root_of(fid)
+        if F.fns.get(root, fn)["module"].startswith(VAL):
+            for p in util.all_places(fn):
+                for a, f in mir.proj_fields(p):
+                    if a.startswith(MODEL):
+                        valreads.add(a.split("::")[-1] + "." + f)
+    if len(valreads) < 40:
+        raise AnchorError(f"validation reads only {len(valreads)} model fields")
+    S = _panic_summaries(F)
+    named = {k: v for k, v in S.items() if k.split("::")[-1] in ("parse_time", "parse_time_window", "new", "get_approx_transportation", "parse_times")}
+    n_direct = n_callee = 0
+    seen_rows = set()
+    for fid, fn in F.fns.items():
+        if "::promoted[" in fid:
+            continue
+        root = F.root_of(fid)
+        mod = F.fns.get(root, fn)["module"]
+        in_reader = mod.startswith(READER_MODS)
+        in_val = mod.startswith(VAL)
+        if not (in_reader or in_val):
+            continue
+        for bi, t in mir.calls(fn):
+            last = t["callee"].split("::")[-1]
+            kind = None
+            if last in ("unwrap", "expect") and ("Option" in t["callee"] or "Result" in t["callee"]):
+                kind = last
+            elif t["callee"].endswith("Index::index") or t["callee"].endswith("IndexMut::index_mut"):
+                kind = "index"
+            if kind and t["args"]:
+                fields = set()
+                for a in t["args"][:2 if kind == "index" else 1]:
+                    # direct rows: intra-procedural slice only (no closure provenance) to keep the confirmed table exact
+                    fields |= _model_fields_backward(F, fn, a, depth=9)
+                if fields:
+                    row = (util.short_fn(root), kind, tuple(sorted(fields)))
+                    if row in seen_rows:
+                        continue
+                    seen_rows.add(row)
+                    n_direct += 1
+                    inst = f"{row[0]}: {kind} on {','.join(row[2])}"
+                    if row in P1_DIRECT_GUARDED:
+                        r.ok(inst, "guarded: " + P1_DIRECT_GUARDED[row])
+                    else:
+                        r.fail(inst, f"a value read from the input document ({', '.join(row[2])}) reaches a panicking `{kind}` without a confirmed guard: a well-formed document with an "
+                                     f"unexpected value crashes the reader instead of yielding an error code", F.loc(fid, t["ln"]))
+            tg = t["res"] or t["callee"]
+            if in_reader and tg in S and not tg.startswith("vrp_pragmatic::format::problem::job_reader") and tg.split("::")[-1] in ("parse_time", "parse_time_window", "parse_times", "get_approx_transportation"):
+                for n in S[tg]:
+                    if n - 1 >= len(t["args"]):
+                        continue
+                    fields = _model_fields_backward(F, fn, t["args"][n - 1])
+                    want_ty = "f64" if tg.endswith("get_approx_transportation") else "String"
+                    for f in sorted(fields):
+                        ad_ = F.adts.get(MODEL + f.split(".")[0])
+                        fty = ""
+                        if ad_:
+                            for v_ in ad_["v"]:
+                                for ff in v_["f"]:
+                                    if ff["n"] == f.split(".")[1].split("::")[-1]:
+                                        fty = ff["ty"]
+                        if want_ty not in fty:
+                            continue  # provenance over-approximation: only fields of the parsed type can be the parser's input
+                        row = (util.short_fn(root), tg.split("::")[-1], f)
+                        if row in seen_rows:
+                            continue
+                        seen_rows.add(row)
+                        n_callee += 1
+                        inst = f"{row[0]}: {row[1]}({f})"
+                        if f in valreads or f.split(".")[0] in ("VehicleType", "VehicleShift", "Problem", "Fleet", "Plan") and f.split(".")[1] in ("shifts", "start", "end", "fleet", "plan", "vehicles", "profiles", "jobs"):
+                            r.ok(inst, "the field is read by a validation rule (or is a container on the access path)")
+                        else:
+                            r.fail(inst, f"input field `{f}` is passed to the panicking `{row[1]}` but no validation rule ever reads it: a malformed value crashes the reader instead of yielding an error code", F.loc(fid, t["ln"]))
+    if n_direct < 8 or n_callee < 3:
+        raise AnchorError(f"only {n_direct} direct and {n_callee} callee rows found")
+
+
 def run(ctx):
     ctx.explanation = (
         "Structural clauses of `validation is total and matches its documented rules`: validation dominates (through the Ok edge of `?`) every reader "
         "call in map_to_problem; every rule function (return type Result<(), FormatError|MultiFormatError> in validation::*) is reachable from "
         "ValidationContext::validate and module validators aggregate with combine_error_results; the code literal of each check_eNNNN equals its name "
         "and the set of codes in the code equals the set of documented headings; no Result in validation is dropped.")
-    ctx.not_decided = ("that each rule's predicate matches its documentation (e.g. any/all slips), exactness of codes == violated rules, and input-derived panics in "
-                       "readers for fields no rule covers (C10-P1 of the design is not armed in this revision; candidate inputs are listed in DESIGN.md §6).")
+    ctx.not_decided = ("that each rule's predicate matches its documentation (e.g. any/all slips), exactness of codes == violated rules; panics that are reached through "
+                       "constructors' assertions, generated ids or collection mutation (Fleet::new, MultiDimLoad::new, job index lookups) — P1 is narrow.")
     ctx.assumptions += ["docs headings `### E....`/`#### E....` are the documented rule table"]
     ctx.run("C10-V1", "validate()? dominates every reader / goal-assembly call in map_to_problem", v1_validate_first, floor=4)
     ctx.run("C10-V2", "every validation rule function is reachable from ValidationContext::validate; module validators aggregate all results", v2_rules_wired, floor=45)
     ctx.run("C10-V3", "code literal == rule name; codes in code == codes in docs", v3_code_tables, floor=38)
+    ctx.run("C10-P1", "input-derived panics (narrow): direct unwrap/expect/index on document values are confirmed guarded; fields fed to panicking parsers are read by validation", p1_input_panics, floor=12)
     ctx.run("C10-V4", "no Result produced in validation is dropped", v4_no_dropped_results, floor=1)
